@@ -98,6 +98,52 @@ theorem C02_order (maxSize timeout : Int) (pre : List Op) (op : Op) (post : List
     intro s0 hs hsorted hw
     exact ih _ (inv_step hs o) (sorted_step hs hsorted o hw.1) hw.2
 
+/-- the roll-over aware order is asymmetric on all of ℕ (no window needed). -/
+theorem less_asymm {a b : Nat} (h : less a b = true) : less b a = false := by
+  unfold less maxSortRange at *
+  by_cases hab : a ≤ b <;> by_cases hba : b ≤ a <;> simp only [hab, hba, if_true, if_false] at h ⊢ <;>
+    split at h <;> split <;> simp only [decide_eq_true_eq, decide_eq_false_iff_not] at h ⊢ <;> omega
+
+/-- Second clause of C02 at trace level (late arrival). In every in-window history, if some call
+delivers an event with sequence number `a`, and a message `m` whose sequence number is ordered
+before `a` is delivered by any later call, then `m` was pushed after the call that delivered `a`:
+it was not buffered when `a` left, so the whole lower-numbered event is a late arrival. (Within
+one call the delivered events are in ascending order by `C02_order`.) -/
+theorem C02_late_arrival (maxSize timeout : Int) (pre : List Op) (op : Op) (post : List Op)
+    (hw : WinRun (init maxSize timeout) (pre ++ op :: post))
+    (a : Nat) (ha : a ∈ keys (evictedBy (run (init maxSize timeout) pre).1 op))
+    (m : Msg) (hm : m ∈ delivered (run (step (run (init maxSize timeout) pre).1 op).1 post).2)
+    (hlt : less m.seq a = true) :
+    m ∈ pushed post := by
+  have hord := C02_order maxSize timeout pre op post hw
+  simp only at hord
+  have hinv : Inv (step (run (init maxSize timeout) pre).1 op).1 := inv_step (inv_run (inv_init _ _) pre) op
+  have hc := run_conserve (step (run (init maxSize timeout) pre).1 op).1 post
+  have hmem : m ∈ pushed post ++ allMsgs (step (run (init maxSize timeout) pre).1 op).1.buf :=
+    hc.subset (List.mem_append_left _ hm)
+  rcases List.mem_append.mp hmem with h | h
+  · exact h
+  · exfalso
+    obtain ⟨p, hp, hmp⟩ := List.mem_flatMap.mp h
+    have hk : m.seq = p.1 := hinv.uniform p hp m hmp
+    have hkm : m.seq ∈ keys (step (run (init maxSize timeout) pre).1 op).1.buf := by
+      rw [hk]; exact List.mem_map.mpr ⟨p, hp, rfl⟩
+    have := (List.pairwise_append.mp hord).2.2 a ha m.seq hkm
+    rw [less_asymm this] at hlt
+    cases hlt
+
+/-- non-vacuity of `C02_late_arrival`: 7 leaves at the third push, 6 arrives late and is delivered
+afterwards; all its hypotheses hold on this history. -/
+example :
+    let pre : List Op := [.push ⟨1, 5, 1300⟩ 0 0, .push ⟨2, 7, 1300⟩ 0 0]
+    let op : Op := .push ⟨3, 8, 1300⟩ 0 0
+    let post : List Op := [.push ⟨4, 6, 1300⟩ 0 0]
+    WinRun (init 1 3600) (pre ++ op :: post) ∧
+    7 ∈ keys (evictedBy (run (init 1 3600) pre).1 op) ∧
+    (⟨4, 6, 1300⟩ : Msg) ∈ delivered (run (step (run (init 1 3600) pre).1 op).1 post).2 ∧
+    less 6 7 = true := by
+  refine ⟨⟨⟨0, ?_⟩, ⟨0, ?_⟩, ⟨0, ?_⟩, ⟨0, ?_⟩, trivial⟩, ?_, ?_, ?_⟩ <;> decide
+
 /-- non-vacuity: a window straddling 2^32-1 → 0, with disorder and overflow. -/
 example : WinRun (init 1 3600)
     [.push ⟨1, 4294967295, 1300⟩ 0 0, .push ⟨2, 1, 1300⟩ 0 0, .push ⟨3, 0, 1300⟩ 0 0, .close] := by
